@@ -226,7 +226,7 @@ def check(rep, ctx):
     hdr = RA.I.sym_of_type(("param", "header"), RA.cls("RecordHeader"))
     hp, hfn = RA.write_paths("write_header", [hdr])
     hrets = [p for p in hp if p.outcome == "return"]
-    rep.check(R_R, len(hrets) == 4, construct=hfn.ref, stmt=f"{len(hrets)} returning paths", message="header writer: expected 4 returning paths",
+    rep.check(R_R, len(hrets) >= 2, construct=hfn.ref, stmt=f"{len(hrets)} returning paths", message="header writer: a header value is null or not, at least 2 returning paths are needed",
               file=file, line=hfn.node.lineno, instance="header")
     # E6
     seen = set()
